@@ -48,9 +48,9 @@ MATS = [(1.0, 0.3, 'strain'), (210e9, 0.3, 'stress'), (67.0, 0.0, 'Stress'), (2.
 
 def domains(tier):
     d2 = [(1, 1, 0), (1, 3, 0), (3, 1, 0), (2, 2, 0), (3, 2, 0)]
-    d3 = [(1, 1, 1), (2, 1, 1), (1, 2, 1), (1, 1, 2), (2, 2, 2)]
+    d3 = [(1, 1, 1), (2, 1, 1), (1, 2, 1), (1, 1, 2), (2, 2, 2), (1, 3, 2)]
     if tier != 'quick':
-        d2 += [(1, 6, 0), (5, 4, 0), (4, 1, 0)]
+        d2 += [(1, 6, 0), (5, 4, 0), (4, 1, 0), (7, 3, 0)]
         d3 += [(3, 1, 2), (1, 3, 3), (3, 3, 2), (2, 3, 4)]
     return d2 + d3
 
@@ -61,7 +61,7 @@ def sizes_for(dom, unit_thickness):
 
 def _strain(r, tier, seed, strict):
     k = 0
-    reps = 1 if tier == 'quick' else 4
+    reps = 1 if tier == 'quick' else 6
     for dom in domains(tier):
         for h in SIZES3:
             for voigt in ('default', True, False):
@@ -71,7 +71,7 @@ def _strain(r, tier, seed, strict):
                         run(r, cs.case_strain, dict(nx=dom[0], ny=dom[1], nz=dom[2], h=h, voigt=voigt, field=field, strict=strict, seed=seed + k))
 
 
-@bound('Strain on 10 domains [quick] / 17 [thorough] (1x1 .. 3x2, 1x1x1 .. 2x2x2; up to 5x4 / 2x3x4) x 4 element-size triples x voigt{default,True,False} x affine fields '
+@bound('Strain on 11 domains [quick] / 19 [thorough] (1x1 .. 3x2, 1x1x1 .. 2x2x2, 1x3x2; up to 7x3 / 2x3x4) x 4 element-size triples x voigt{default,True,False} x affine fields '
        '{zero, rigid (rotation+translation), stretch+rotation, uniaxial, pure shear+rotation, one off-diagonal gradient, general}: shape, normal rows, zero shear of shear-free fields, '
        'shear rows = right component up to factor {1,2}, operand, 3-call history with reset')
 def strain_affine(r, tier, seed):
@@ -91,7 +91,7 @@ def _stress(r, tier, seed, strict):
                 if dom[2] > 0 and plane in ('Stress', 'STRAIN'):
                     continue
                 fields = FIELDS_SHEAR if strict else FIELDS_FREE + FIELDS_SHEAR
-                for field in (fields if tier != 'quick' else [fields[k % len(fields)], fields[(k + 3) % len(fields)]]):
+                for field in (fields * 3 if tier != 'quick' else [fields[k % len(fields)], fields[(k + 3) % len(fields)], fields[(k + 5) % len(fields)]]):
                     k += 1
                     run(r, cs.case_stress, dict(nx=dom[0], ny=dom[1], nz=dom[2], h=h, E=E, nu=nu, plane=plane, field=field, strict=strict, seed=seed + k))
 
@@ -116,7 +116,7 @@ def _energy(r, tier, seed, strict):
                 if dom[2] > 0 and plane in ('Stress', 'STRAIN'):
                     continue
                 fields = FIELDS_SHEAR if strict else ['rigid', 'normal', 'uniaxial'] + FIELDS_SHEAR
-                for field in (fields if tier != 'quick' else [fields[k % len(fields)]]):
+                for field in (fields * 3 if tier != 'quick' else [fields[k % len(fields)], fields[(k + 2) % len(fields)]]):
                     k += 1
                     run(r, cs.case_energy, dict(nx=dom[0], ny=dom[1], nz=dom[2], h=h, E=E, nu=nu, plane=plane, field=field, xkind=xks[k % 3], strict=strict, seed=seed + k))
 
@@ -138,7 +138,7 @@ def element_average(r, tier, seed):
     for dom in domains(tier):
         for h in SIZES3:
             for ndof in (1, 2, 3, 4):
-                for rep in range(1 if tier == 'quick' else 3):
+                for rep in range(2 if tier == 'quick' else 8):
                     k += 1
                     run(r, cs.case_average, dict(nx=dom[0], ny=dom[1], nz=dom[2], h=h, ndof=ndof, seed=seed + k))
 
@@ -150,7 +150,7 @@ LEADS = [(), (1,), (3,), (2, 3), (2, 1, 2)]
        'input: values against explicit loops, <EO u, y> = <u, NO y>, both sensitivities, reset + second call, operands; per-node matrices lead+(nodes per element,) applied to 1..3 dofs per node (3 calls)')
 def operator_pair(r, tier, seed):
     k = 0
-    for dom in domains(tier):
+    for dom in domains(tier) * (1 if tier == 'quick' else 5):
         for ndof in (1, 2, 3):
             for lead in LEADS:
                 for cplx in (False, True):
@@ -180,7 +180,7 @@ def thermo(r, tier, seed):
             for (E, nu, plane) in MATS:
                 if dom[2] > 0 and plane in ('Stress', 'STRAIN'):
                     continue
-                for rep in range(1 if tier == 'quick' else 3):
+                for rep in range(2 if tier == 'quick' else 8):
                     k += 1
                     run(r, cs.case_thermo, dict(nx=dom[0], ny=dom[1], nz=dom[2], h=h, E=E, nu=nu, alpha=alphas[k % 3], plane=plane, xkind=xks[k % 4], seed=seed + k))
 
